@@ -29,6 +29,14 @@ Theorem C17_group_error_only :
 Proof. exact group_error_only. Qed.
 Print Assumptions C17_group_error_only.
 
+(* tie to the source for the prefixed writer: the model takes the four writes of one line (bracket,
+   prefix, bracket, line) as ONE mutex section (pw_atom); the extractor reports on every run whether
+   prefixWriter.writeLine still takes the mutex.  Narrowing or dropping that lock breaks this
+   obligation (the scheduled runs, R_prun, then look for a torn line). *)
+Theorem C17_prefixed_mutex_section_tie : prefixed_writeline_locks = true.
+Proof. reflexivity. Qed.
+Print Assumptions C17_prefixed_mutex_section_tie.
+
 (* output: prefixed — for every chunking of every command's output and every
    interleaving of the mutex sections, the stream consists of whole prefixed
    lines, each command's lines in order, each exactly once. *)
